@@ -505,7 +505,7 @@ impl<'a> Runtime<'a> {
             Stmt::Return { expr, .. } => {
                 let val =
                     if let Some(expr_ref) = expr { self.eval_expr(expr_ref)? } else { Value::Null };
-                Ok(ExecFlow::Return(val))
+                Ok(ExecFlow::Return(self.detach_return_value(val)))
             }
             Stmt::Break { .. } => Ok(ExecFlow::Break),
             Stmt::Continue { .. } => Ok(ExecFlow::LoopContinue),
@@ -1576,6 +1576,32 @@ impl<'a> Runtime<'a> {
         // all survive frame reset without staging.
         unsafe { self.frame.reset(frame_offset) };
         val
+    }
+
+    /// Makes a value that is about to leave a function self-contained.
+    ///
+    /// Reading a variable yields a borrowed view of its storage. Returning such a view
+    /// (`return s`, `return p`) would outlive the storage: the local's pool slot is
+    /// released when its scope is popped, and a temporary bound to a parameter lives on
+    /// the callee's frame, which is reset when the call returns. Copy those views onto
+    /// the frame; `relocate_return_value` then carries the copy over the frame reset.
+    fn detach_return_value(&self, val: Value<'a>) -> Value<'a> {
+        match val {
+            Value::Str(ArenaCow::Borrowed(s))
+                if self.pool.contains(s.as_ptr())
+                    || (self.has_frame_arena() && self.frame.contains_ptr(s.as_ptr())) =>
+            {
+                Value::Str(ArenaCow::Owned(ArenaString::from_str(self.frame, s)))
+            }
+            Value::Array(mut items) => {
+                for item in &mut items {
+                    let inner = mem::replace(item, Value::Null);
+                    *item = self.detach_return_value(inner);
+                }
+                Value::Array(items)
+            }
+            other => other,
+        }
     }
 
     /// Overwrites a variable slot. The new value is promoted while the old
